@@ -17,6 +17,10 @@ import kani_run  # noqa: E402
 from props import PROPS, TRUSTED_ALLOW, UNIT_RLIMIT  # noqa: E402
 
 REPO = os.environ.get('E57_REPO', '/repo')
+try:
+    HINTFREE = json.load(open(os.path.join(VERIF, 'units', 'hintfree.json')))
+except Exception:
+    HINTFREE = {}
 
 
 def slug(s):
@@ -210,10 +214,15 @@ def run_verus_unit(prop, unit, workdir, out, tier, known):
         if unc:
             out.undecided.append('%s: %s calls helper(s) %s that are new in /repo and have no contract: cannot decide (%s)' % (unit, reg, unc, fl['message']))
             continue
-        if reg in meta.get('degraded_fns', []) and re.search(r'invariant not satisfied|decreases not satisfied|could not prove termination|loop must have a decreases', fl['message']):
-            # the loop annotations of this function were dropped with their anchors: obligations that exist only for them decide nothing
-            hint_only.append('%s/%s: %s' % (unit, reg, fl['message']))
-            continue
+        if reg in meta.get('degraded_fns', []):
+            # DEGRADED function: its proof hints were dropped because the code they refer to changed. Only a postcondition of the function's
+            # own contract that was provable WITHOUT any hint on the tree the contracts were written for (units/hintfree.json) still decides
+            # something when it fails now; every other failed obligation may merely miss its hint and is reported as undecided.
+            hf = HINTFREE.get(unit, {}).get(fmap[reg]['id'] if reg in fmap else reg)
+            nclause = re.sub(r'\s+', ' ', fl['clause'] or '')[:160]
+            if not (fl['message'].startswith('postcondition not satisfied') and hf is not None and '*' not in hf['fails'] and nclause not in hf['fails']):
+                hint_only.append('%s/%s: %s [%s]' % (unit, reg, fl['message'], nclause[:70]))
+                continue
         clause = re.sub(r'\s+', ' ', fl['clause'])[:160]
         name = '%s/%s/%s [%s]' % (unit, reg, fl['message'], clause)
         sites = ' | '.join('%s: %s' % (l[0], l[1]) for l in fl['labels'] if l[1])
@@ -229,7 +238,7 @@ def run_verus_unit(prop, unit, workdir, out, tier, known):
         else:
             out.violations.append(v)
     if hint_only and len(out.violations) + len(out.known) == nviol0:
-        out.undecided.append('%s: restructured function(s) whose loop annotations no longer apply; only loop-annotation obligations failed: %s' % (unit, '; '.join(hint_only)[:600]))
+        out.undecided.append('%s: restructured function(s): proof hints no longer apply and the failed obligations needed them on the unchanged tree, so nothing is decided: %s' % (unit, '; '.join(hint_only)[:600]))
     if tier == 'thorough':
         # (a) vacuity: every function under contract must be able to reach its body under its precondition
         try:
